@@ -86,20 +86,25 @@ theorem c06_construct {n : Nat} {a : Bool} {s : State} (h : Reachable n a s) {i 
       (by simp) (by simp)).2.1
 
 /-- `coro_queue::create_suspend_point(fn)`: the coroutines `fn` made ready (in the order `hs`) end up in the new
-suspend point — all of them, each once, in reverse order (they are taken off the back of the ready queue) —, the
+suspend point — all of them, each once, in that order (the order in which dropping them one by one would have resumed
+them; the pinned code reversed it, `c06_create_asis_reversed`, /repo fix 34c6158) —, the
 ready queue is as before, nothing is resumed, no other suspend point changes; a non-void result of `fn` is the
 attached value.  Whatever the count (inline, heap, every doubling). -/
 theorem c06_create {n : Nat} {a : Bool} {s : State} (h : Reachable n a s) {i : Nat} (hv : vacant s i = true)
     (hs : List Ptr) (v : Option Nat) :
-    handles (step s (Op.create i hs v)).1 i = hs.reverse
+    handles (step s (Op.create i hs v)).1 i = hs
     ∧ (∀ k, k ≠ i → handles (step s (Op.create i hs v)).1 k = handles s k)
     ∧ (step s (Op.create i hs v)).1.queue = s.queue
     ∧ resumed (step s (Op.create i hs v)).1 = resumed s
-    ∧ (step s (Op.create i hs v)).1.given = s.given ++ hs.reverse
+    ∧ (step s (Op.create i hs v)).1.given = s.given ++ hs
     ∧ ∃ o, (step s (Op.create i hs v)).1.obj i = some o ∧ o.typed = v.isSome ∧ o.value = v := by
-  have C := create_spec (reachable_inv h) hv hs.reverse v
+  have C := create_spec (reachable_inv h) hv hs v
   simp only [step, hv, if_true]
   exact ⟨C.2.1, C.2.2.1, C.2.2.2.2.2.2.1, C.2.2.2.2.2.2.2.1, C.2.2.2.2.2.2.2.2.2, C.2.2.2.1⟩
+
+/-- as-is witness (pinned commit): three coroutines made ready in the order 1, 2, 3 under `create_suspend_point` came out as
+3, 2, 1 — dropping the result resumed them in the opposite order to the same calls without the wrapper -/
+theorem c06_create_asis_reversed : handles (createAsIs (init 1 true) 0 [1, 2, 3] none) 0 = [3, 2, 1] := by decide
 
 /-- `sp << h` appends `h`, whatever the current count (inline, inline→heap, heap, heap doubling); no other
 suspend point changes -/
@@ -691,8 +696,8 @@ example : (step (run (init 2 false) [Op.ctorHV 0 1 42, Op.conv 0, Op.conv 0, Op.
     ∧ (step (run (init 2 false) [Op.ctorHV 0 1 42, Op.conv 0, Op.mov 1 0]) (Op.conv 1)).2 = Res.num 42
     ∧ (step (run (init 2 false) [Op.ctorHV 0 1 42, Op.conv 0, Op.mov 1 0]) (Op.conv 0)).2 = Res.gone := by decide
 
-/-- `create_suspend_point` with five coroutines made ready and the result 7: reverse order, one block, value attached -/
-example : handles (run (init 1 true) [Op.create 0 [1, 2, 3, 4, 5] (some 7)]) 0 = [5, 4, 3, 2, 1]
+/-- `create_suspend_point` with five coroutines made ready and the result 7: same order, one block, value attached -/
+example : handles (run (init 1 true) [Op.create 0 [1, 2, 3, 4, 5] (some 7)]) 0 = [1, 2, 3, 4, 5]
     ∧ (run (init 1 true) [Op.create 0 [1, 2, 3, 4, 5] (some 7)]).trace = [Ev.alloc 6]
     ∧ (step (run (init 1 true) [Op.create 0 [1, 2, 3, 4, 5] (some 7)]) (Op.conv 0)).2 = Res.num 7 := by decide
 
